@@ -10,6 +10,8 @@ pub mod poseidon1_perm;
 pub mod poseidon2_perm;
 pub(crate) mod poseidon_perm;
 pub mod recompose;
+#[cfg(feature = "verif-hooks")]
+pub mod verif_hooks;
 
 pub use context::*;
 pub use executor::*;
